@@ -109,6 +109,26 @@ def _src_of(interp, args, kwargs):
     return SV(STR, z3.Select(args[0].t, _s(interp, args[1])))
 
 
+def _str_replace(interp, args, kwargs):
+    """str.replace(a, b) (all occurrences): uninterpreted, with the facts that hold for every python replace"""
+    ctx = interp.ctx
+    s_, a, b = (_s(interp, x) if not isinstance(x, Opaque) else _s(interp, x) for x in args[:3])
+    f = z3.Function("replace_all", z3.StringSort(), z3.StringSort(), z3.StringSort(), z3.StringSort())
+    r = f(s_, a, b)
+    ctx.assume(z3.Implies(z3.Not(z3.Contains(s_, a)), r == s_))
+    ctx.assume(z3.Implies(z3.And(z3.Length(a) > 0, z3.Not(z3.Contains(b, a)), z3.Length(a) == 1), z3.Not(z3.Contains(r, a))))
+    ctx.assume(z3.Implies(z3.And(z3.Contains(s_, a), z3.Length(a) > 0, z3.Length(b) > 0), z3.Contains(r, b)))
+    return SV(STR, r)
+
+
+def _tag_view(interp, args, kwargs):
+    """abstract view of a schema's tag section: case-folded form -> entry (or None)"""
+    from pyvc.vals import TOpt, TRef
+    ty = TOpt(TRef("TagEntry"))
+    f = z3.Function("tag_view", z3.IntSort(), z3.StringSort(), sort_of(ty))
+    return SV(ty, f(args[0].t, _s(interp, args[1])))
+
+
 def _empty_str_set(interp, args, kwargs):
     return SV(TSet(STR), z3.K(z3.StringSort(), z3.BoolVal(False)))
 
@@ -237,7 +257,10 @@ if z3 is not None:
         "json.dump": _json_dump, "time.time": _time,
         "file_key_of": _ufun("file_key_of", 2), "backup_path_of": _ufun("backup_path_of", 3), "empty_str_set": _empty_str_set,
         "datetime.now": lambda interp, args, kwargs: Opaque("now", fresh=True),
-        "forall_str": _forall_str, "basename_of": _basename_model, "original_path_of": _ufun("original_path_of", 2),
+        "tag_view": _tag_view,
+        "str.replace": _str_replace, "replace_all": _str_replace,
+        "forall_str": _forall_str, "dirname_of": _dirname_model, "commonpath2": _ufun("commonpath2", 2),
+        "os.path.commonpath": lambda interp, args, kwargs: _ufun("commonpath2", 2)(interp, list(interp.iter_items_concrete(args[0])), {}), "basename_of": _basename_model, "original_path_of": _ufun("original_path_of", 2),
         "backup_keys": lambda interp, args, kwargs: interp.ctx.wrap(z3.Function("backup_keys", z3.IntSort(), z3.StringSort(), sort_of(__import__("pyvc.vals", fromlist=["TList"]).TList(STR)))(args[0].t, _s(interp, args[1])), __import__("pyvc.vals", fromlist=["TList"]).TList(STR)), "unknown_src_map": _src_map, "src_of": _src_of,
         "servable": _servable_spec, "servable_in_any_folder": _servable_any, "os.listdir": lambda interp, args, kwargs: Opaque("os.listdir()", fresh=True),
         "portalocker.Lock": _lock_ctor, "PLock.acquire": _lock_acquire, "PLock.release": _lock_release,
